@@ -166,6 +166,11 @@ impl EventLoop {
             // Last session might contain packets which aren't acked. If it's a new session, clear the pending packets.
             if !connack.session_present {
                 self.pending.clear();
+                // Nothing is carried over, so packet ids start over as well. The order of a
+                // later retransmission is derived from the last acked packet id, which must
+                // not refer to the discarded session
+                self.state.last_pkid = 0;
+                self.state.last_puback = 0;
             }
             self.network = Some(network);
 
